@@ -29,7 +29,7 @@ META = {
     },
     "exhaustive": {"quick": False, "thorough": False},
     "assumptions": ["validity is judged on the trees the solution itself refers to (binarised copies for multifurcating inputs)", "internal node names may be filled in by the solvers (label_internal); the sanitizer compares topology, leaf names and leaf data"],
-    "timeout": {"quick": 900, "thorough": 7200},
+    "timeout": {"quick": 420, "thorough": 7200},
 }
 
 
